@@ -37,6 +37,10 @@ def run(ctx):
     ctx.tv("enc", "Trace_Encoder", {"mode": "deep", "stride": 9 if q else 1, "prop": "C20"}, consts={"MaxD": 10000})
     # format paths
     ctx.tv("fmt", "Trace_Format", {"mode": "deep", "stride": 5 if q else 1, "prop": "C20"}, consts={"MaxD": 10000})
+    # totality of Unmarshal on ill-formed encoded texts: the format family of the Arshal model
+    # (a panic is a mismatch with the predicted outcome, whatever that is)
+    import arshalfam as af
+    af.run_model(ctx, "formats_u", af.within(af.FMTFAM, 1, 400, 12000 if q else 10 ** 6), {"u"}, "C20", uopts=af.FMT_UOPTS, D=1, laws=False)
     ctx.assumptions += [
         "documented misuse panics (nil reader/writer, Reset inside a marshal call, accessor on the wrong token kind, non-blank indent) are never provoked by the drivers",
         "non-termination is observed as a 120 s timeout of the isolated child process",
